@@ -56,7 +56,25 @@ def enc_parent(chain):
     return " ".join([f"P {len(chain)}"] + [f"{f(i)} {f(t)} {f(s)}" for i, t, s in chain])
 
 
+RELAXED_MARK = " @x"
+
+
+def _relaxed_first(a, b):
+    """` @x` twins: before the line's own question the caller asks the RELAXED parent comparison of the same two
+    operands (`strict_parent_compare=False`, both operand orders; answers and refusals discarded).  What a relaxed
+    comparison let through must not be waved through a strict one afterwards."""
+    for x, y in ((a, b), (b, a)):
+        for q in ("has_overlap", "intersection"):
+            try:
+                getattr(x, q)(y, match_strand=False, strict_parent_compare=False)
+            except Exception:  # noqa
+                pass
+
+
 def impl_algebra_op(line):
+    relaxed = line.endswith(RELAXED_MARK)
+    if relaxed:
+        line = line[:-len(RELAXED_MARK)]
     tk = Toks(line.split())
     op = tk.next()
 
@@ -66,6 +84,8 @@ def impl_algebra_op(line):
         if op in ("overlap", "isect", "contains"):
             a = parse_ploc(tk)
             b = parse_ploc(tk)
+            if relaxed:
+                _relaxed_first(a, b)
             ms, fs, st = tk.bool(), tk.bool(), tk.bool()
             if op == "overlap":
                 return "ok " + b2s(a.has_overlap(b, match_strand=ms, full_span=fs, strict_parent_compare=st))
@@ -75,14 +95,20 @@ def impl_algebra_op(line):
         if op == "union":
             a = parse_ploc(tk)
             b = parse_ploc(tk)
+            if relaxed:
+                _relaxed_first(a, b)
             return "ok " + show_ploc(a.union(b))
         if op == "unionpo":
             a = parse_ploc(tk)
             b = parse_ploc(tk)
+            if relaxed:
+                _relaxed_first(a, b)
             return "ok " + show_ploc(a.union_preserve_overlaps(b))
         if op == "minus":
             a = parse_ploc(tk)
             b = parse_ploc(tk)
+            if relaxed:
+                _relaxed_first(a, b)
             ms, st = tk.bool(), tk.bool()
             return "ok " + show_ploc(a.minus(b, match_strand=ms, strict_parent_compare=st))
         if op == "gaplist":
